@@ -195,6 +195,7 @@ def check(m, run):
     # ---------------------------------------------------------------- AL identities
     check_cross(m, run)
     check_binomial(m, run)
+    rnd1(m, run)
     check_is_left(m, run, 'AL3.is-left')
     check_elementwise(m, run)
     # ---------------------------------------------------------------- DV1 zero guards test the divisor
@@ -647,3 +648,89 @@ def accumulator(fn):
     if binds is None:
         return None
     return inits[0].value, lp.body[0].value, binds
+
+
+# ---------------------------------------------------------------------------------------------- RND1: evenly spaced samples reach their end point exactly
+def rounding_order_findings(fn):
+    """samples of an evenly spaced sequence: with the loop index x running up to the divisor n, `(x * delta) / n` is exactly `delta` at
+    x = n whenever n * delta is exact (unit and small integer intervals - the knot vector generators use [0, 1]), and so is
+    `delta * (x / n)`; but `x * (delta / n)` multiplies the index by an *already rounded* quotient and misses the end point for many n
+    (49, 98, 103, ... on [0, 1]), and a running sum of that quotient drifts further.  Findings: (node, text) for every product of an
+    index-dependent factor with an index-independent quotient, and every accumulation of an index-independent quotient in a loop."""
+    idx = set()
+    for n in ast.walk(fn):
+        if isinstance(n, ast.comprehension) and isinstance(n.target, ast.Name) and isinstance(n.iter, ast.Call) and norm(n.iter.func) in ('range', 'xrange'):
+            idx.add(n.target.id)
+        if isinstance(n, ast.For) and isinstance(n.target, ast.Name) and isinstance(n.iter, ast.Call) and norm(n.iter.func) in ('range', 'xrange'):
+            idx.add(n.target.id)
+    defs = {}
+    for n in walk_no_nested(fn):
+        if isinstance(n, ast.Assign) and len(n.targets) == 1 and isinstance(n.targets[0], ast.Name):
+            defs.setdefault(n.targets[0].id, []).append(n.value)
+    # a re-binding of a name to a conversion of itself (start = float(start)) is not a definition to follow
+    for k in list(defs):
+        defs[k] = [v for v in defs[k] if not any(isinstance(x, ast.Name) and x.id == k for x in ast.walk(v))]
+
+    def expand(e, seen=()):
+        """the expression with single-assignment locals replaced by their definitions"""
+        if isinstance(e, ast.Name) and e.id not in idx and e.id not in seen and len(defs.get(e.id, [])) == 1 and len(seen) < 8:
+            return expand(defs[e.id][0], seen + (e.id,))
+        return e
+
+    def strip(e):
+        e = expand(e)
+        for _ in range(8):
+            if isinstance(e, ast.Call) and isinstance(e.func, ast.Name) and e.func.id == 'float' and len(e.args) == 1:
+                e = expand(e.args[0])
+            else:
+                break
+        return e
+
+    def uses_index(e, seen=()):
+        e = strip(e)
+        for x in ast.walk(e):
+            if isinstance(x, ast.Name):
+                if x.id in idx:
+                    return True
+                if x.id not in seen and len(defs.get(x.id, [])) == 1 and len(seen) < 8 and uses_index(defs[x.id][0], seen + (x.id,)):
+                    return True
+        return False
+
+    def rounded_quotient(e):
+        """an index-independent division (possibly wrapped / a local holding one)"""
+        e = strip(e)
+        return isinstance(e, ast.BinOp) and isinstance(e.op, ast.Div) and not uses_index(e)
+    out = []
+    for n in ast.walk(fn):
+        if isinstance(n, ast.BinOp) and isinstance(n.op, ast.Mult):
+            for a, b in ((n.left, n.right), (n.right, n.left)):
+                if uses_index(a) and rounded_quotient(b):
+                    out.append((n, '`%s`: the index is multiplied by the quotient `%s`, which is rounded before the multiplication' % (norm(n)[:70], norm(strip(b))[:50])))
+                    break
+        if isinstance(n, ast.AugAssign) and isinstance(n.op, ast.Add) and rounded_quotient(n.value):
+            p = getattr(n, '_sa_parent', None)
+            while p is not None and not isinstance(p, (ast.For, ast.While)):
+                p = getattr(p, '_sa_parent', None)
+            if p is not None:
+                out.append((n, '`%s`: a running sum of the rounded quotient `%s`' % (norm(n)[:70], norm(strip(n.value))[:50])))
+    return out
+
+
+def rnd1(m, run):
+    fi = m.func('linalg.linspace')
+    f = rounding_order_findings(fi.node)
+    run.ob('RND1.product-before-quotient', fi.key, not f,
+           'no sample multiplies the index by a pre-rounded step: the last sample of a unit interval is exactly the end point' if not f else
+           '%s - the last sample then misses `stop` for many sample counts (e.g. 0.9999999999999999 instead of 1.0 for 50 samples of [0, 1]): a clamped knot vector '
+           'generated from it has one end knot too few' % f[0][1], site(fi, f[0][0] if f else None))
+    # positive control: the two spellings that must be reported, and the two that must not
+    for src, want in (('def f(a, b, n):\n    step = (b - a) / float(n - 1)\n    return [a + float(x) * step for x in range(n)]\n', 1),
+                      ('def f(a, b, n):\n    step = (b - a) / (n - 1)\n    v = a\n    out = []\n    for x in range(n):\n        out.append(v)\n        v += step\n    return out\n', 1),
+                      ('def f(a, b, n):\n    d = b - a\n    return [a + float(x) * float(d) / float(n - 1) for x in range(n)]\n', 0),
+                      ('def f(a, b, n):\n    d = b - a\n    return [a + d * (x / float(n - 1)) for x in range(n)]\n', 0)):
+        t = ast.parse(src).body[0]
+        for x_ in ast.walk(t):
+            for c_ in ast.iter_child_nodes(x_):
+                c_._sa_parent = x_
+        if len(rounding_order_findings(t)) != want:
+            raise AnalysisError('RND1 control not as expected (%d findings wanted): rule is broken' % want)
